@@ -53,7 +53,7 @@ for m in sorted(glob.glob('/verif/seeded/*/meta.json')):
     rows.append(f"| {x['id']} | {x.get('property')} | {what} | {res} |")
 sec = f'''### 0.4 Seeded changes (independent agents, property text only) and what the checks say
 
-Eight batches, {n} changes, each written by a fresh agent that saw only the property text and a scratch worktree; each confirmed by
+Nine batches, {n} changes, each written by a fresh agent that saw only the property text and a scratch worktree; each confirmed by
 `tools/seedverify.sh` (builds, the package's existing tests pass with the change, the agent's demonstration fails with it and passes
 without it) and run through the claimed check with `tools/seedcheck.sh` (`VERIF_REPO=<scratch worktree>`). "⇒" marks a change the
 check missed or could only report as no-failing-input-found on the first run, and what the strengthened check says now.
